@@ -59,7 +59,7 @@ Value& MemberSETExpression::value(Context& ctx) const
       case Type::INTEGER:
         if (a0.type() == Type::NUMERIC)
         {
-          rv->at(_index).swap(Value(Value::toInteger(*a0.numeric())));
+          rv->at(_index).swap((a0.isNull() ? Value(Value::type_integer) : Value(Value::toInteger(*a0.numeric()))));
           return val;
         }
         else if (a0.type() == Type::NO_TYPE)
@@ -71,7 +71,7 @@ Value& MemberSETExpression::value(Context& ctx) const
       case Type::NUMERIC:
         if (a0.type() == Type::INTEGER)
         {
-          rv->at(_index).swap(Value(Numeric(*a0.integer())));
+          rv->at(_index).swap((a0.isNull() ? Value(Value::type_numeric) : Value(Numeric(*a0.integer()))));
           return val;
         }
         else if (a0.type() == Type::NO_TYPE)
